@@ -1,5 +1,6 @@
 """Pass generators shared by C03 (clean passes) and C08 (corrupted passes, fallback)."""
 import datetime
+import random
 import io
 
 import numpy as np
@@ -101,9 +102,13 @@ def build(p, line_fields=None, header_fields=None):
     sc = "noaa18" if fam == "klm" else "noaa10"
     lines = []
     blankw = None
+    noise = random.Random(l1b.AUTO_NOISE) if l1b.AUTO_NOISE is not None else None
+    size = l1b.SPEC[l1b.FMT[fmt]["scan"]]["size"]
     for i, n in enumerate(p["nums"]):
         y, d, ms = fields(p["rec"][i]) if line_fields is None or line_fields[i] is None else line_fields[i]
         line = dict(n=n, year=y, doy=d, ms=ms)
+        if noise is not None:       # every record field that is not part of the recorded time / line number: random bytes
+            line["blank"] = noise.randbytes(size)
         lines.append(line)
     hdt = dt_of(p["header"])
     hx = header_fields
